@@ -215,3 +215,74 @@ Example good_ex : good (Arr [vint 1; Obj [(vstr [97], Arr [Null; vint 2]); (vint
 Proof.
   repeat constructor. intros k x [H|[H|[]]]; injection H as <- <-; reflexivity.
 Qed.
+
+(** ** objects with pairwise different string keys - every object of a JSON document - are addressed by their keys *)
+Lemma bytes_eqb_refl b : bytes_eqb b b = true.
+Proof. destruct (bytes_eqb_spec b b); congruence. Qed.
+
+Lemma hw_eqb_refl x : hw_eqb x x = true.
+Proof. destruct x; cbn; try apply Z.eqb_refl. apply bytes_eqb_refl. Qed.
+
+Lemma hws_eqb_refl l : hws_eqb l l = true.
+Proof. induction l as [|x l IH]; [reflexivity|]. cbn. rewrite hw_eqb_refl, IH. reflexivity. Qed.
+
+Lemma val_eqb_tstr a b : val_eqb (TStr a) (TStr b) = bytes_eqb a b.
+Proof. reflexivity. Qed.
+
+Definition string_keys (o : obj) : Prop := forall k x, In (k, x) o -> exists b, k = TStr b.
+
+Lemma find_hashed_string o : forall k x, string_keys o -> NoDup (map fst o) -> In (k, x) o -> find_hashed val_eqb o k = Some x.
+Proof.
+  induction o as [|[k' x'] r IH]; intros k x Hs Hn Hin; [destruct Hin|]. cbn [find_hashed].
+  inversion Hn as [|? ? Hnot Hn']; subst. destruct Hin as [E|Hin].
+  - injection E as -> ->. destruct (Hs k x (or_introl eq_refl)) as (b & ->).
+    rewrite hws_eqb_refl, val_eqb_tstr, bytes_eqb_refl. reflexivity.
+  - destruct (Hs k x (or_intror Hin)) as (b & ->). destruct (Hs k' x' (or_introl eq_refl)) as (b' & ->).
+    assert (Hne : b <> b').
+    { intros ->. apply Hnot. cbn [fst]. apply in_map_iff. exists (TStr b', x). split; [reflexivity|exact Hin]. }
+    rewrite val_eqb_tstr. destruct (bytes_eqb_spec b b') as [E|_]; [contradiction|]. rewrite andb_false_r.
+    apply IH; [intros k2 x2 H2; apply (Hs k2 x2); right; exact H2|exact Hn'|exact Hin].
+Qed.
+
+Lemma string_keys_ok o : string_keys o -> NoDup (map fst o) -> keys_ok o.
+Proof.
+  intros Hs Hn k x Hin. unfold get, get_with. destruct o as [|[k1 x1] [|kv r]]; [destruct Hin| |].
+  - destruct Hin as [E|[]]. injection E as -> ->. destruct (Hs k x (or_introl eq_refl)) as (b & ->).
+    rewrite val_eqb_tstr, bytes_eqb_refl. reflexivity.
+  - apply find_hashed_string; assumption.
+Qed.
+
+(** JSON-like values: scalars, arrays, and objects with pairwise different text keys *)
+Inductive json_like : val -> Prop :=
+| j_null : json_like Null
+| j_bool b : json_like (Bool b)
+| j_num n : json_like (Num n)
+| j_str b : json_like (TStr b)
+| j_arr a : Forall json_like a -> json_like (Arr a)
+| j_obj o : string_keys o -> NoDup (map fst o) -> Forall (fun kv => json_like (snd kv)) o -> json_like (Obj o).
+
+Lemma json_like_good_list : forall l, Forall (fun v => json_like v -> good v) l -> Forall json_like l -> Forall good l.
+Proof. induction l as [|v l IH]; intros H1 H2; constructor; inversion H1; inversion H2; subst; auto. Qed.
+
+Fixpoint json_like_good_f (n : nat) : forall v, (depth v < n)%nat -> json_like v -> good v.
+Proof.
+  destruct n as [|n]; intros v Hd Hj; [lia|]. inversion Hj; subst; try constructor.
+  - (* array *) rewrite Forall_forall in *. intros x Hx. apply (json_like_good_f n); [|apply H; exact Hx].
+    cbn [depth] in Hd. assert (depth x <= fold_right (fun x m => Nat.max (depth x) m) O a)%nat.
+    { clear -Hx. induction a as [|y a IH]; [destruct Hx|]. cbn. destruct Hx as [->|Hx]; [lia|specialize (IH Hx); lia]. }
+    lia.
+  - (* object *) apply string_keys_ok; assumption.
+  - rewrite Forall_forall in *. intros [k x] Hx. cbn [snd]. apply (json_like_good_f n); [|apply (H1 (k, x) Hx)].
+    cbn [depth] in Hd.
+    assert (depth x <= fold_right (fun kv m => match kv with (k, x) => Nat.max (Nat.max (depth k) (depth x)) m end) O o)%nat.
+    { clear -Hx. induction o as [|[k2 y] o IH]; [destruct Hx|]. cbn. destruct Hx as [E|Hx]; [injection E as -> ->; lia|specialize (IH Hx); lia]. }
+    lia.
+Qed.
+
+Theorem json_like_good v : json_like v -> good v.
+Proof. apply (json_like_good_f (S (depth v))). lia. Qed.
+
+(** so for every JSON-like input and every path: getpath (path p) = p *)
+Corollary getpath_of_path_json ps v : json_like v ->
+  sforall (fun xp => getpath (rev (snd xp)) v = Ok (fst xp)) (path_paths ps (v, [])).
+Proof. intros H. apply getpath_of_path. apply json_like_good. exact H. Qed.
